@@ -169,6 +169,7 @@ def check_C01(rep):
     rep.notes["grammars"] = ncases; rep.notes["conflict_free_grammars"] = len(cands)
     return rep
 
+NP_TEXT = "NP grammars with a reachable non-productive nonterminal: the LR(1) automaton keeps items whose rule can never be completed, so a term that no sentence can continue is shifted and the syntax error is reported at a later term (S->a|b X; X->X c on 'b' reports <eof>); identified by: grammar has such a nonterminal, exactly one message is written, and it is the message the pinned model predicts"
 D12_TEXT = "D12 accept/reduce conflict hidden by the break on success in transitions() (ctpg.hpp): a state holding '## <- root .' and another completed item on <eof> gets a plain 'success' cell and no conflict line"
 
 import oracles as O
@@ -329,7 +330,270 @@ def check_C05(rep):
     rep.cov["samples"] = samples
     return rep
 
-CHECKS = {"C01": check_C01, "C16": check_C16, "C11": check_C11, "C05": check_C05}
+
+def clean_grammar(run, cid):
+    """no conflict line, not a D12 instance, analysis succeeded"""
+    r = run.real[cid]
+    return r["gen"] == "ok" and not r["skipped"] and "CONFLICT" not in r["diag"] and not d12_cells(run, cid)
+
+def check_C09(rep):
+    common_stage(rep)
+    run = h1_stage(rep)
+    if run is None: return rep
+    nontriv = set(); samples = []; np_cases = set()
+    for cid, j, inp, ri, mi in each_input(run, lambda c: clean_grammar(run, c) and not run.uses_error(c)):
+        rep.cov["evaluations"] += 1
+        vtxt, qtxt = verbose_and_quiet(inp, ri)
+        mq = (mi["err2"] if inp["verbose"] else mi["err"]) if mi else None
+        if mq != qtxt: rep.tie_broken(f"correspondence H1/error-stream: case {cid} input {j}: real non-verbose stream differs from the model's")
+        else: rep.cov["traces_validated_against_impl"] += 1
+        rules, root = run.abstract_rules(cid); names = O.term_names(run, cid); b = inp["bytes"]
+        toks, end = O.tokenise(run, cid, inp)
+        tl = [("t", t) for t, _, _ in toks]
+        isterm = lambda s: s if s[0] == "t" else None
+        accepted = ri["res"].startswith("VALUE")
+        lines = O.parse_trace(qtxt)
+        prules, has_np = cyk.productive_part(rules, root, isterm)
+        bad = cyk.first_bad(prules, root, tl, isterm)      # None = sentence; k < len = token k kills every sentence prefix; len = only the end is wrong
+        if end[0] == "fail" and (bad is None or bad >= len(tl)):
+            # every delivered token keeps the prefix valid: the lexical error is what must be reported (if the prefix so far is viable)
+            pos = O.true_pos(b, end[1]); want = f"[{pos[0]}:{pos[1]}] PARSE: Unexpected character: " + chr(b[end[1]])
+            want_accept = False
+        elif bad is None and end[0] == "eof":
+            want = None; want_accept = True
+        else:
+            if bad < len(tl): t, st = toks[bad][0], toks[bad][1]
+            else: t, st = len(names) - 2, end[1]
+            pos = O.true_pos(b, st); want = f"[{pos[0]}:{pos[1]}] PARSE: Syntax error: Unexpected '{names[t]}'"
+            want_accept = False
+        got = "\n".join(f"[{l[0]}:{l[1]}] {l[2]}: {l[3]}" for l in lines)
+        if accepted != want_accept:
+            rep.fail(kind=("accepted-although-not-in-language" if accepted else "rejected-although-in-language"), case=cid, input=inp, grammar=run.meta[cid], result=ri["res"][:100])
+        elif accepted and lines:
+            rep.fail(kind="successful-quiet-parse-wrote-to-the-stream", case=cid, input=inp, grammar=run.meta[cid], stream=qtxt[:300])
+        elif not accepted and (len(lines) != 1 or (got.encode("latin1", "replace") != want.encode("latin1", "replace"))):
+            if has_np and len(lines) == 1 and mq == qtxt:
+                np_cases.add(cid); continue
+            rep.fail(kind="wrong-or-missing-or-repeated-error-message", case=cid, input=inp, grammar=run.meta[cid], expected=want, observed=qtxt[:300])
+        if not accepted and want and not want.startswith("[1:1]") and not want.startswith("[1:"):
+            nontriv.add((cid, j))
+            if len(samples) < 2: samples.append({"grammar": run.meta[cid]["rules"], "bytes": b, "message": want})
+    rep.cov["distinct_nontrivial"] = len(nontriv)
+    if np_cases:
+        k = sorted(np_cases, key=int)[0]
+        rep.known_finding(NP_TEXT + f" [{len(np_cases)} grammar(s) this run, e.g. {run.meta[k]['rules']}]")
+    rep.cov["rule"] = "grammars without conflict line and without error rules; every input is parsed quietly; the expected single message (kind, position, term or byte) is computed from the property text with an Earley viable-prefix oracle and a reference tokeniser; non-trivial = distinct rejected (grammar, input) whose message position is on a line >= 2"
+    rep.cov["samples"] = samples
+    return rep
+
+LEAF = re.compile(r"t\[([0-9a-f]*)\]@(\d+):(\d+)")
+
+def check_C10(rep):
+    common_stage(rep)
+    run = h1_stage(rep)
+    if run is None: return rep
+    nontriv = set(); samples = []
+    for cid, j, inp, ri, mi in each_input(run):
+        rep.cov["evaluations"] += 1
+        b = inp["bytes"]; names = O.term_names(run, cid)
+        vtxt, qtxt = verbose_and_quiet(inp, ri)
+        toks, end = O.tokenise(run, cid, inp)
+        # positions inside the result tree
+        if mi is None or mi["res"] != ri["res"].split(" BUFFERFAULT")[0]:
+            rep.tie_broken(f"correspondence H1/values-with-positions: case {cid} input {j}: real value differs from the model's")
+        else: rep.cov["traces_validated_against_impl"] += 1
+        tokset = {(bytes(b[s:s + l]).hex(), O.true_pos(b, s)) for (t, s, l) in toks}
+        for hx, L, C in LEAF.findall(ri["res"]):
+            if (hx, (int(L), int(C))) not in tokset:
+                rep.fail(kind="term-value-carries-wrong-source-point", case=cid, input=inp, grammar=run.meta[cid], leaf=f"t[{hx}]@{L}:{C}", tokens=[(bytes(b[s:s+l]).hex(), O.true_pos(b, s)) for (t, s, l) in toks][:20]); break
+        # positions in the verbose trace: k-th token event <-> k-th token
+        k = 0; multi = False
+        for (ln, col, ch, msg) in O.parse_trace(vtxt):
+            if ch != "PARSE": continue
+            tokev = (msg.startswith("Shift to ") and not msg.endswith("term: <error_recovery_token>")) or msg.startswith("Recovery, consuming term")
+            if tokev:
+                if k >= len(toks): rep.fail(kind="more-token-events-than-tokens", case=cid, input=inp, grammar=run.meta[cid]); break
+                t, s0, l0 = toks[k]; want = O.true_pos(b, s0)
+                if (ln, col) != want:
+                    rep.fail(kind="trace-position-is-not-the-term-start", case=cid, input=inp, grammar=run.meta[cid], line=f"[{ln}:{col}] {msg[:60]}", expected=want); break
+                if 10 in b[s0:s0 + l0]: multi = True
+                k += 1
+            elif msg.startswith("Syntax error") or msg.startswith("Recognized "):
+                if k < len(toks): want = O.true_pos(b, toks[k][1])
+                else: want = O.true_pos(b, end[1])
+                if (ln, col) != want:
+                    rep.fail(kind="message-position-is-not-the-term-start", case=cid, input=inp, grammar=run.meta[cid], line=f"[{ln}:{col}] {msg[:60]}", expected=want); break
+            elif msg.startswith("Unexpected character"):
+                want = O.true_pos(b, end[1])
+                if end[0] != "fail" or (ln, col) != want:
+                    rep.fail(kind="unexpected-character-position-wrong", case=cid, input=inp, grammar=run.meta[cid], line=f"[{ln}:{col}] {msg[:60]}", expected=want); break
+        if (multi or "Recovering" in vtxt) and any(O.true_pos(b, s)[0] >= 2 for (_, s, _) in toks):
+            nontriv.add((cid, j))
+            if len(samples) < 2: samples.append({"bytes": b, "skipws": inp["skipws"], "skipnl": inp["skipnl"], "token_positions": [O.true_pos(b, s) for (_, s, _) in toks][:12]})
+    rep.cov["distinct_nontrivial"] = len(nontriv)
+    rep.cov["rule"] = "all H1 inputs (tabs, CR, VT, FF, newlines, 2- and 3-byte lexemes that may contain newlines, all four whitespace option combinations, inputs with lexical/syntax errors and recovery); every [line:col] in traces, messages and term values is compared with the true position of the term's first byte computed from the byte offsets by an independent tokeniser; non-trivial = distinct input with a term on line >= 2 after a multi-line lexeme or a recovery"
+    rep.cov["samples"] = samples
+    return rep
+
+def check_C13(rep):
+    common_stage(rep)
+    run = h1_stage(rep)
+    if run is None: return rep
+    nontriv = set(); samples = []
+    for cid, j, inp, ri, mi in each_input(run):
+        rep.cov["evaluations"] += 1
+        if mi is None or mi["ctx"] != ri["ctx"]:
+            rep.tie_broken(f"correspondence H1/context-log: case {cid} input {j}: the sequence of contextual functor calls differs from the model's")
+        else: rep.cov["traces_validated_against_impl"] += 1
+        ctxflags = run.carriers[run.gis[cid]["carrier"]]["contextual"]
+        vtxt, _ = verbose_and_quiet(inp, ri)
+        reds = [int(m[3].split()[3]) for m in O.parse_trace(vtxt) if m[2] == "PARSE" and m[3].startswith("Reduced using rule ")]
+        want = [r for r in reds if r < len(ctxflags) and ctxflags[r]]
+        got = [int(x) for x in ri["ctx"].split()] if ri["ctx"] else []
+        if ri["res"].startswith("THROW"): continue
+        if got != want:
+            rep.fail(kind="context-not-routed-to-exactly-the-contextual-functors-in-reduction-order", case=cid, input=inp, grammar=run.meta[cid], reductions=reds, contextual_calls_seen=got, expected=want)
+        if len(want) >= 3 and len(want) < len(reds):
+            nontriv.add((cid, j))
+            if len(samples) < 2: samples.append({"bytes": inp["bytes"], "reductions": reds, "contextual_calls": got})
+    rep.cov["distinct_nontrivial"] = len(nontriv)
+    rep.cov["rule"] = "carrier rule slots alternate '>>=' (contextual, logging into the caller's context object) and '>=' functors; for every input the context's log after context_parse is compared with the contextual reductions of the verbose trace in order; non-trivial = distinct input with >= 3 contextual reductions interleaved with non-contextual ones. Identity/constness of the context object across value categories is covered by the H3 programs."
+    rep.cov["samples"] = samples
+    return rep
+
+def check_C18(rep):
+    common_stage(rep)
+    run = h1_stage(rep)
+    if run is None: return rep
+    nontriv = set(); samples = []
+    custom = lambda cid: run.carriers[run.gis[cid]["carrier"]]["lexer"] == "custom"
+    for cid, j, inp, ri, mi in each_input(run, custom):
+        rep.cov["evaluations"] += 1
+        if mi is None or mi["lexcalls"] != ri["lexcalls"] or mi["res"] != ri["res"].split(" BUFFERFAULT")[0]:
+            rep.tie_broken(f"correspondence H1/lexer-calls: case {cid} input {j}: positions at which the custom lexer was asked (or the result) differ from the model's")
+        else: rep.cov["traces_validated_against_impl"] += 1
+        b = inp["bytes"]; toks, end = O.tokenise(run, cid, inp)
+        seq = [s for (_, s, _) in toks] + ([end[1]] if end[0] == "fail" else [])
+        got = [int(x) for x in ri["lexcalls"].split()] if ri["lexcalls"] else []
+        if got != seq[:len(got)]:
+            rep.fail(kind="custom-lexer-asked-at-a-position-where-no-term-is-needed", case=cid, input=inp, grammar=run.meta[cid], asked_at=got, term_starts=seq)
+        vtxt, qtxt = verbose_and_quiet(inp, ri)
+        # a default-constructed result is reported as Unexpected character
+        if end[0] == "fail" and len(got) == len(seq) and "Unexpected character" not in qtxt and "Syntax error" not in qtxt:
+            rep.fail(kind="lexer-failure-not-reported-as-unexpected-character", case=cid, input=inp, grammar=run.meta[cid], stream=qtxt[:200])
+        # lexemes handed to the term functor are exactly the slices the lexer returned
+        leaves = [hx for hx, L, C in LEAF.findall(ri["res"])]
+        slices = {bytes(b[s:s + l]).hex() for (_, s, l) in toks}
+        if any(hx not in slices for hx in leaves):
+            rep.fail(kind="lexeme-is-not-the-slice-the-lexer-returned", case=cid, input=inp, grammar=run.meta[cid], leaves=leaves[:10])
+        if len(got) >= 5 and end[0] == "fail" and inp["skipws"] and any(x in b for x in (9, 10, 32)):
+            nontriv.add((cid, j))
+            if len(samples) < 2: samples.append({"bytes": b, "asked_at": got, "outcome": ri["res"][:60]})
+    rep.cov["distinct_nontrivial"] = len(nontriv)
+    rep.cov["rule"] = "carriers A/E/C use use_lexer<table_lexer>: a custom lexer that returns (index, length) pairs of length 1-3 chosen by the first byte, or a default-constructed result; the offsets at which it is consulted are logged and compared with the term starts of an independent tokeniser; non-trivial = distinct input with >= 5 consultations, whitespace between terms and a lexer failure not at the first term"
+    rep.cov["samples"] = samples
+    return rep
+
+# =============================================================== H2-based properties
+from h2fam import H2Run
+
+D4_TEXT = "D4 dfa_builder merges states in place where a subset construction is needed (ctpg.hpp regex::dfa_builder): the automaton does not accept the pattern's language; identified by: the real automaton fails validation AND is state-for-state the automaton the pinned mirror Dfa.build produces"
+
+def h2_stage(rep):
+    run = H2Run(rep.seed, rep.tier)
+    if run.build_err:
+        rep.tie_broken("the H2 harness no longer compiles against /repo's header: " + run.build_err[-600:]); return None
+    crashed = run.crashed()
+    if run.status["real_rc"] != 0 or crashed:
+        for k in sorted(crashed, key=int)[:1]:
+            rep.fail(kind="real-code-crash-or-hang", case=k, meta=run.meta[k], detail=f"the real harness exited with status {run.status['real_rc']} without a block for this case")
+    return run
+
+def obligations_dfa(rep, run, cids):
+    """kernel-checked lexer_ok on the automaton dumped from the REAL builder, one lemma per instance"""
+    if not cids: return {}
+    defs = [coqgen.H2_HEADER]
+    for k in cids:
+        c = run.cases[k]
+        defs.append(f"Definition sm{k} : dfa := {coqgen.dfa_term(run.real[k]['states'])}.")
+        if c["pattern"] is not None: defs.append(f"Definition o{k} := ob_pat {coqgen.nat_list(c['pattern'])} sm{k}.")
+        else: defs.append(f"Definition o{k} := ob_terms [" + "; ".join(f"({kk}, {coqgen.nat_list(s)})" for kk, s in c["terms"]) + f"] sm{k}.")
+    ev = defs + ["Definition all_results := [" + "; ".join(f"({k}, o{k})" for k in cids) + "].", "Eval vm_compute in all_results."]
+    path = f"{COQ}/Cases_{rep.pid}_eval.v"; open(path, "w").write("\n".join(ev) + "\n")
+    ok, out, dt = coqc_file(os.path.basename(path), timeout=3000)
+    res = {k: (v == "true") for k, v in re.findall(r"\(\s*(\d+),\s*(true|false)\)", out)}
+    if not ok or len(res) != len(cids):
+        rep.oblige("instances-evaluate (lexer_ok)", False, out[-500:]); return {}
+    lem = defs + [f"Lemma ob_{k} : o{k} = {'true' if res[k] else 'false'}. Proof. vm_compute. reflexivity. Qed." for k in cids]
+    path2 = f"{COQ}/Cases_{rep.pid}.v"; open(path2, "w").write("\n".join(lem) + "\n")
+    ok2, out2, dt2 = coqc_file(os.path.basename(path2), timeout=3000)
+    rep.notes["obligation_files"] = [path2]; rep.notes["obligation_seconds"] = round(dt + dt2, 1)
+    if not ok2: rep.oblige("instance-lemmas-compile", False, out2[-500:])
+    for f in (path, path2):
+        for ext in (".vo", ".vok", ".vos", ".glob"):
+            try: os.remove(f[:-2] + ext)
+            except OSError: pass
+    return res
+
+def dfa_property(rep, run, kind):
+    """shared by C03 (kind 'pattern') and C04 (kind 'termset')"""
+    sel = [k for k in sorted(run.real, key=int) if (run.cases[k]["pattern"] is not None) == (kind == "pattern") and run.real[k]["states"]]
+    for k in sel:
+        if not run.same_block(k):
+            rep.tie_broken(f"correspondence H2/automaton: case {k} ({run.meta[k].get('pattern', run.meta[k].get('terms'))!r}): the real builder's automaton / match results differ from the model's")
+    res = obligations_dfa(rep, run, sel)
+    d4 = []; nontriv = 0; samples = []
+    for k in sel:
+        if k not in res: continue
+        what = run.meta[k].get("pattern", run.meta[k].get("terms"))
+        real = run.real[k]; spec = run.extra[k]["spec"]
+        known = False
+        if res[k]: rep.obligations.append((f"lexer_ok(real automaton of {what!r}) = true", True, ""))
+        elif run.same_block(k):
+            known = True; d4.append(k); rep.obligations.append((f"lexer_ok(real automaton of {what!r}) = false [known finding D4]", True, ""))
+        else: rep.oblige(f"lexer_ok(real automaton of {what!r}) = true", False, "the automaton built by the real code does not accept the pattern's language and is not the automaton of the pinned mirror")
+        # the property on the real matcher, string by string, judged by the derivative matcher of the specification
+        verdicts = set()
+        for j, s_ in enumerate(run.cases[k]["inputs"]):
+            if j >= len(real["matches"]) or j >= len(spec): break
+            rep.cov["evaluations"] += 1
+            m = real["matches"][j]; got = (m["t"], m["len"]); want = spec[j]
+            if kind == "pattern":
+                g_ok = (got[0] == 0 and got[1] == len(s_)); w_ok = (want[0] == 0 and want[1] == len(s_)); verdicts.add(w_ok)
+                bad = g_ok != w_ok
+            else:
+                bad = got != want; verdicts.add(want[0])
+            if "OVERREAD" in m["flags"]: rep.fail(kind="matcher-read-past-the-end-of-the-input", case=k, what=what, input=s_)
+            if bad and not known:
+                rep.fail(kind=("pattern-verdict-differs-from-its-language" if kind == "pattern" else "token-is-not-the-longest-match-first-listed"), case=k, what=what, input=s_, observed=got, expected=want)
+        if len(verdicts) >= 2 and (kind == "termset" or sum(what.count(ch) for ch in "*+?|{") >= 2):
+            nontriv += 1
+            if len(samples) < 3: samples.append({"what": what, "states": len(real["states"]), "strings": len(run.cases[k]["inputs"]), "validated": res[k]})
+    if d4:
+        ex = [run.meta[k].get("pattern", run.meta[k].get("terms")) for k in d4[:6]]
+        rep.known_finding(D4_TEXT + f" [{len(d4)} of {len(sel)} automata this run, e.g. {ex}]")
+    rep.cov["distinct_nontrivial"] = nontriv; rep.cov["samples"] = samples
+    rep.cov["traces_validated_against_impl"] = len(sel)
+    rep.notes["automata"] = len(sel); rep.notes["validated_true"] = sum(1 for k in sel if res.get(k)); rep.notes["known_d4"] = len(d4)
+    return rep
+
+def check_C03(rep):
+    common_stage(rep)
+    run = h2_stage(rep)
+    if run is None: return rep
+    dfa_property(rep, run, "pattern")
+    rep.cov["rule"] = "patterns: forced shapes (loop followed by the same char, shared prefixes, repetition of groups containing loops, nested {n}, optional before same char), a deterministic-only stream, grammar-directed random patterns (depth <= 5, all operators, sets, ranges, hex escapes, bytes >= 0x80); strings: all strings up to a bound over the pattern's alphabet plus a foreign byte, and random longer ones. Non-trivial = distinct pattern with >= 2 operators on which both verdicts occur."
+    return rep
+
+def check_C04(rep):
+    common_stage(rep)
+    run = h2_stage(rep)
+    if run is None: return rep
+    dfa_property(rep, run, "termset")
+    rep.cov["rule"] = "term sets of 1-6 terms mixing chars, strings and patterns: forced overlaps (keyword vs identifier in both orders, '=' vs '==', prefix strings, the same string twice, more than four terms accepting one string) and random sets; strings: all strings up to a bound over the terms' alphabet, every string term, each with one byte appended and removed. Non-trivial = distinct term set on which at least two different terms win. Whitespace skipping and lexeme slices are covered by the H1 carrier with the generated lexer (C10/C16 runs) and the H3 programs."
+    return rep
+
+CHECKS = {"C03": check_C03, "C04": check_C04, "C01": check_C01, "C16": check_C16, "C11": check_C11, "C05": check_C05, "C09": check_C09, "C10": check_C10, "C13": check_C13, "C18": check_C18}
 
 def run_check(pid, tier, seed):
     rep = Report(pid, tier, seed)
